@@ -41,6 +41,17 @@ Theorem C03_create_exit_code : forall Hb matches C cdig ser t req no_dh dr ip if
 Proof. exact create_exit_selection. Qed.
 Print Assumptions C03_create_exit_code.
 
+(* never a false alarm: a tree consistent with its loaded histories (every visited file hashes to the first original
+   digest recorded for it; every recorded path is visited or ignored) verifies and diffs with exit 0 and empty reports,
+   whatever formats, patterns or nesting *)
+Theorem C03_consistent_tree_verifies : forall Hb matches C cdig t hs ipats ifile,
+  load C cdig t = inl hs -> lh_gens (root_hist hs) <> [] ->
+  consistent_tree Hb matches C hs t (set_patterns (latest_patterns (lh_gens (root_hist hs))) ipats (pattern_file_lines ifile)) ->
+  verify_result Hb matches C cdig false t ipats ifile = Some (mkVR 0 [] [] []) /\
+  verify_result Hb matches C cdig true t ipats ifile = Some (mkVR 0 [] [] []).
+Proof. exact consistent_verifies. Qed.
+Print Assumptions C03_consistent_tree_verifies.
+
 (* the exit codes named by the property: obligations on the constants regenerated from errors.py *)
 Theorem C03_codes : exit_completeness = 10%Z /\ exit_verification_failed = 11%Z /\ exit_new_files_found = 21%Z /\ exit_single_file_not_found = 20%Z.
 Proof. repeat split; reflexivity. Qed.
